@@ -1,0 +1,93 @@
+// Verification hooks (deterministic simulation); compiled only with `--cfg maidsafe_safe_network_verif`.
+// A public wrapper around the crate-private `ReplicationFetcher`, read access to its queues, and a
+// way to age its `std::time::Instant` deadlines (equivalent to the clock advancing).
+
+use super::*;
+
+impl ReplicationFetcher {
+    pub(crate) fn verif_age(&mut self, d: Duration) {
+        for (_k, deadline) in self.to_be_fetched.iter_mut() {
+            if let Some(t) = deadline.checked_sub(d) {
+                *deadline = t;
+            }
+        }
+        for (_k, (_holder, deadline)) in self.on_going_fetches.iter_mut() {
+            if let Some(t) = deadline.checked_sub(d) {
+                *deadline = t;
+            }
+        }
+    }
+
+    pub(crate) fn verif_queued(&self) -> Vec<(RecordKey, RecordType, PeerId)> {
+        self.to_be_fetched.keys().cloned().collect()
+    }
+
+    pub(crate) fn verif_in_flight(&self) -> Vec<(RecordKey, RecordType, PeerId)> {
+        self.on_going_fetches
+            .iter()
+            .map(|((k, t), (h, _))| (k.clone(), t.clone(), *h))
+            .collect()
+    }
+}
+
+pub struct VerifFetcher {
+    inner: ReplicationFetcher,
+}
+
+impl VerifFetcher {
+    pub fn new(self_peer_id: PeerId, event_sender: mpsc::Sender<NetworkEvent>) -> Self {
+        Self {
+            inner: ReplicationFetcher::new(self_peer_id, event_sender),
+        }
+    }
+
+    pub fn set_replication_distance_range(&mut self, distance_range: U256) {
+        self.inner.set_replication_distance_range(distance_range)
+    }
+
+    pub fn add_keys(
+        &mut self,
+        holder: PeerId,
+        incoming_keys: Vec<(NetworkAddress, RecordType)>,
+        locally_stored_keys: &HashMap<RecordKey, (NetworkAddress, RecordType)>,
+    ) -> Vec<(PeerId, RecordKey)> {
+        self.inner
+            .add_keys(holder, incoming_keys, locally_stored_keys)
+    }
+
+    pub fn set_farthest_on_full(&mut self, farthest_in: Option<RecordKey>) {
+        self.inner.set_farthest_on_full(farthest_in)
+    }
+
+    pub fn notify_about_new_put(
+        &mut self,
+        new_put: RecordKey,
+        record_type: RecordType,
+    ) -> Vec<(PeerId, RecordKey)> {
+        self.inner.notify_about_new_put(new_put, record_type)
+    }
+
+    pub fn notify_fetch_early_completed(
+        &mut self,
+        key_in: RecordKey,
+        record_type: RecordType,
+    ) -> Vec<(PeerId, RecordKey)> {
+        self.inner.notify_fetch_early_completed(key_in, record_type)
+    }
+
+    pub fn next_keys_to_fetch(&mut self) -> Vec<(PeerId, RecordKey)> {
+        self.inner.next_keys_to_fetch()
+    }
+
+    pub fn age(&mut self, d: Duration) {
+        self.inner.verif_age(d)
+    }
+
+    pub fn queued(&self) -> Vec<(RecordKey, RecordType, PeerId)> {
+        self.inner.verif_queued()
+    }
+
+    pub fn in_flight(&self) -> Vec<(RecordKey, RecordType, PeerId)> {
+        self.inner.verif_in_flight()
+    }
+}
